@@ -15,6 +15,10 @@ import (
 const expiry = time.Hour
 
 var seqPool = []int64{0, 1, 2, 3, 1 << 40, math.MaxInt64}
+
+// sequence numbers are signed 64-bit: also the negative extremes, so that two of them can be further apart than
+// the int64 range (a comparison by subtraction wraps)
+var seqPoolSigned = []int64{0, 1, 2, 3, 1 << 40, math.MaxInt64, -2, -(1 << 40), math.MinInt64, math.MaxInt64 - 1, math.MinInt64 + 1}
 var saltPool = []string{"s0", "s0", "s0", "s1", "s1b", "s64", "s65", "s200"}
 var valSizes = []int{3, 999, 1000, 1001, 4000}
 var sigClasses = []string{"ok", "ok", "ok", "ok", "osalt", "oseq", "oval", "okey", "bitflip", "zero"}
@@ -163,7 +167,7 @@ func genPut(rng *rand.Rand, small, sized []string, lastSeq, lastCas int64, focus
 	}
 	switch rng.Intn(6) {
 	case 0:
-		ps.Seq = seqPool[rng.Intn(len(seqPool))]
+		ps.Seq = seqPoolSigned[rng.Intn(len(seqPoolSigned))]
 	case 1:
 		ps.Seq = lastSeq
 	case 2:
